@@ -13,8 +13,8 @@ RUN_MODULE = "Run.Run_C14"
 GEN_FILES = ["Gen_fastv.v", "Gen_types.v"]
 RULE = ("random ASTs of the documented subset (1-6 inputs, 1-14 statements: all 8 primitives at arity 1-4, assigns of nets and "
         "constants, named-port blackbox instances with connected / `.p()` / omitted pins, constants 1'b0/1'b1 as gate operands, "
-        "pin nets and assign sources, equal operands, inputs that are outputs, statements in any order incl. use before "
-        "declaration; identifiers containing keywords, tie0/tie_0-like names, leading underscores) rendered in the writer's "
+        "pin nets and assign sources, equal operands, inputs that are outputs, combinational loops, statements in any order "
+        "incl. use before declaration; identifiers containing keywords, tie0/tie_0-like names, leading underscores) rendered in the writer's "
         "layout or with random blanks/tabs/newlines everywhere except between `)` and `;`; both real readers read the same "
         "text; plus a malformed stream outside the subset (model faithfulness only); thorough adds the bundled netlists. "
         "non-trivial = inside the subset, both readers succeed, at least 3 nodes; distinct = hash of AST + text")
@@ -80,7 +80,8 @@ def generate(rng, tier):
     for i in range(n):
         r = rng.random()
         ast = U.gen_ast(rng, size="small" if rng.random() < 0.6 else "big", stress=rng.choice([0.0, 0.3, 0.6, 0.9]),
-                        p_const=rng.choice([0.0, 0.15, 0.4]), pardup=0.25 if r < 0.3 else 0.0)
+                        p_const=rng.choice([0.0, 0.15, 0.4]), pardup=0.25 if r < 0.3 else 0.0,
+                        p_cycle=0.12)
         if r > 0.82:
             ast = malform(rng, ast)
         out.append(mk_case(rng, ast, kind="malformed" if "malformed" in ast else "gen"))
@@ -186,6 +187,22 @@ def nontrivial(case, obs):
     return case["kind"] != "malformed" and "ok" in obs["fast"] and "ok" in obs["full"] and len(obs["fast"]["ok"]["nodes"]) >= 3
 
 
+def _cyclic(d):
+    fi = {n[0]: n[3] for n in d["nodes"]}
+    state = {}
+
+    def visit(n):
+        if state.get(n) == 1:
+            return True
+        if state.get(n) == 2:
+            return False
+        state[n] = 1
+        r = any(visit(f) for f in fi.get(n, []))
+        state[n] = 2
+        return r
+    return any(visit(n) for n in fi)
+
+
 def classify(case, obs):
     if case["kind"] == "bundled":
         if "skip" in obs:
@@ -198,6 +215,8 @@ def classify(case, obs):
         return out
     ids = {o for it in ast["items"] for o in (it[1] if it[0] in ("input", "output", "wire") else it[3] if it[0] == "gate" else
                                               [it[1], it[2]] if it[0] == "assign" else [n for _, n in it[3] if n])}
+    if "ok" in obs["fast"] and _cyclic(obs["fast"]["ok"]):
+        out.append("cyclic")
     for it in ast["items"]:
         if it[0] == "gate":
             out.append("gate:%s/%d" % (it[1], len(it[3]) - 1))
